@@ -37,6 +37,10 @@ def make_project(nfiles=1, nmod=1, nprog=1, nproc=1, ntype=1, nabs=0, nblock=0, 
         L = [f"module mod{m}", f"  !! doc of module mod{m}" + (f" uses [[mod{m - 1}]]" if m > 1 and links else "")]
         if m > 1:
             L.append(f"  use mod{m - 1}")
+        L.append("  use iso_fortran_env")
+        L.append("  use, intrinsic :: iso_c_binding, only: c_int")
+        if m == 1:
+            L.append("  use third_party_lib")
         L.append("  implicit none")
         L += [f"  integer :: mvar{m}", f"  !! module variable {m}"]
         C = [f"subroutine msub{m}(a)", f"  !! module subroutine {m}", "  integer, intent(in) :: a", f"  !! argument of msub{m}"]
@@ -69,6 +73,8 @@ def make_project(nfiles=1, nmod=1, nprog=1, nproc=1, ntype=1, nabs=0, nblock=0, 
         L = [f"program prog{p}", f"  !! doc of program prog{p}"]
         if nmod:
             L.append("  use mod1")
+        L.append("  use iso_fortran_env")
+        L.append("  use omp_lib")
         L.append("  implicit none")
         hl, hc = ([], [])
         if not placed:
